@@ -324,7 +324,7 @@ def run_shard(spec, acc):
         # still handled by its own definition
         if d.supported and d.type == "Fast" and d.fixed_layout:
             sibs_ = [x for x in ds if x.supported and x.fixed_layout and x.type == "Fast"]
-            for rep in range(2 if quick else 20):
+            for rep in range(4 if quick else 20):
                 other = rng.choice(sibs_)
                 pa, pb_ = dbx.pack(d, gen.base_raws(d, rng, dbx)), dbx.pack(other, gen.base_raws(other, rng, dbx))
                 if dbx.select(pgn, pa) is not d or dbx.select(pgn, pb_) is not other:
@@ -342,6 +342,15 @@ def run_shard(spec, acc):
                 two = NMEA2000Decoder()
                 ia, ib = wire.can_id(3, pgn, 7, 255), wire.can_id(3, pgn, 8, 255)
                 got_ = {}
+                if rep % 2:
+                    # ... on a decoder that builds the network map, the two talkers being the two halves of one multi-function box
+                    # (same manufacturer and unique number, another function and instance, an address each)
+                    from .. import hist
+                    two = NMEA2000Decoder(build_network_map=True)
+                    u_ = rng.randrange(1 << 20)
+                    for s_, kw_ in ((7, dict(function=130, inst_lo=0)), (8, dict(function=150, inst_lo=1))):
+                        two.decode_tcp(wire.ebyte_frame(wire.can_id(6, 60928, s_, 255), hist.claim_name(u_, 1851, **kw_).to_bytes(8, "little")))
+                    acc.count("interleaved_talkers_that_are_one_multi_function_box")
                 try:
                     for ident_ in (ia, ib):
                         two.decode_tcp(wire.ebyte_frame(ident_, bytes([((q + 5) % 8) << 5 | 2]) + bytes(7)))          # orphan continuation frames
